@@ -69,6 +69,10 @@ CHECKS = {
    text="Seeded exploration: 1-3 logged-in FTP sessions on one service instance (interleaved by the choice tape) issue directory, file and transfer commands with path arguments over {a, b, .., ., '', /} up to 5 components plus odd/long paths that name a sentinel tree planted beside the service root on the real temp filesystem; transfers run over passive data connections on the simulated transport, some reset mid-transfer. Oracle: the sentinel tree (everything outside the root) is byte-identical and has neither lost nor gained entries; no reply or transferred data contains sentinel names or contents; every PWD reply is a rooted path without dot-dot components.",
    ref="§3 C11", tech=TECH + "sentinel-tree oracle on the real temp filesystem + reply/transfer content check; interleaved sessions and data-connection reset faults",
    note="Path mapping is sequential logic: the simulator contributes the shared-instance interleavings and the transfer faults; symlinks leaving the root are assumed absent."),
+ "C05": dict(
+   text="RESTRICTED CLAIM. History invariants over every event of simulated runs of four workloads (segmented dialogues of all protocols, hostile inputs to all services, a payload sweep cycling through all 256 single bytes, 2-byte strings, invalid UTF-8/NUL/control bytes and up to 64 KiB through echo/counterstrike/memcached, and UDP datagrams through the raw listener's generic handler): every event marshals to JSON and the JSON has every key of the event (modulo encoding/json's UTF-8 coercion); payload-hex decodes to exactly the bytes of payload and payload-length is their count; recorded raw payloads are bytes that the simulated transport really delivered on that connection; source/destination addresses and ports equal the connection's as the simulated kernel created it. NOT covered: MergeFrom keeps / CopyFrom overwrites and the exhaustive enumeration of event.Payload as an API - pure functions with no schedule, clock or fault in them.",
+   ref="§3 C05", tech=TECH + "history invariants over all events of simulated runs against the transport's ground truth (restricted claim)",
+   note="The MergeFrom/CopyFrom clause and exhaustive 2-byte enumeration are not decided (not simulation targets); a service recording only part of a datagram (its buffer size) is accepted as long as the bytes are the datagram's."),
 }
 NA = {
  "C17": "pure functions of a byte buffer (decoder methods, ipp decode/encode): no schedule, clock, fault or interleaving to simulate (DESIGN §4)",
